@@ -103,7 +103,7 @@ CHECKS = {
  'C04': dict(
     technique='property-based differential testing: measured sensitivity of the real integrator (central differences in the library error coordinates) vs the flow of the model matrices, per-block tolerances from a propagated neglected-term bound',
     text='Generated operating points (low-speed stratum, |lat|<=80, both modes) x constant-rate/force increments x T in 0.1..2 s x dt in 2..10 ms: all 9/7 state directions and 6 sensor directions; every 3x3 block of the measured transition and input response must agree '
-         'with the product of exponentials of [F B;0 0]dt built from system_matrices within bound(neglected terms)+4*discretisation change+floor. A sign or factor error in any block is 10^2..10^8 x its tolerance in the stratum built for it. Exploration.',
+         'with the product of exponentials of [F B;0 0]dt built from system_matrices within bound(neglected terms)+4*discretisation change+floor. A sign or factor error in any block is 10^2..10^8 x its tolerance in the stratum built for it. propagate_errors on uniform / irregular rows, time origins, weaving across the +-180 seam of heading/roll with a fixed-tolerance representation-invariance relation; argument forms (int64 columns, Series/stack/one-row table). Exploration.',
     note='Neglected-term forms and constants calibrated on the unchanged tree (1152 cases, margin >= 2..5x, recorded in the module); propagate_errors clause compares against the same perturbed integrations.',
     design='DESIGN.md section 4, C04'),
  'C11': dict(
@@ -159,8 +159,7 @@ def main():
         'not_applicable': na,
         'notes': 'Every check: ./check <ID> quick|thorough; env VERIF_SEED selects the Hypothesis seed; exit 0 ok / 1 VIOLATION / 2 harness error. Committed regression inputs in replays/<ID>/ run first in every tier. Findings protocol: known_findings.json.',
     }
-    if not na:
-        del man['not_applicable']
+    # 'not_applicable' stays in the file even when empty: every listed property is claimed (DESIGN.md section 7)
     import jsonschema
     jsonschema.validate(man, json.load(open('/root/.vp/MANIFEST.schema.json')))
     json.dump(man, open(os.path.join(V, 'MANIFEST.json'), 'w'), indent=1)
